@@ -98,7 +98,9 @@ theorem C10_run_content (vals : List Rat) (map : List Nat) (newN j : Nat) (hj : 
 theorem C10_untouched (fo : FloatOps) (h r : H1) (map : List Nat) (hr : h.mergeWithMap fo map = .ok r) :
     r.under = h.under ∧ r.over = h.over ∧ r.inner = h.inner ∧ r.dtype = h.dtype ∧ r.keep = h.keep := by
   unfold mergeWithMap at hr
-  simp only [bind, Except.bind, pure, Except.pure] at hr
+  by_cases hem : map.isEmpty = true
+  · simp [hem, bind, Except.bind, throw, throwThe, MonadExceptOf.throw] at hr
+  simp only [hem, Bool.false_eq_true, if_false, bind, Except.bind, pure, Except.pure] at hr
   cases hb : mergeBinsAux ((h.bins fo).zip map) none with
   | error e => simp [hb] at hr
   | ok nb => simp only [hb] at hr; cases hr; exact ⟨rfl, rfl, rfl, rfl, rfl⟩
